@@ -5,7 +5,7 @@ import json, os, shutil, sys, glob
 sid, check, detected, key = sys.argv[1:5]
 note = sys.argv[5] if len(sys.argv) > 5 else ""
 src = os.environ.get("SEED_SRC", f"/tmp/seed-out-{sid}")
-dst = os.environ.get("SEED_DST", f"/verif/seeded/{sid.upper()}")
+dst = os.environ.get("SEED_DST", "/verif/seeded/" + sid.upper().replace("-R", "-r"))
 os.makedirs(dst, exist_ok=True)
 shutil.copy(f"{src}/patch.diff", f"{dst}/patch.diff")
 for f in glob.glob(f"{src}/*_test.go") + glob.glob(f"{src}/*.sh") + glob.glob(f"{src}/*.lisp"):
@@ -23,7 +23,7 @@ rr = f"{sd}/{sid}.rerun.log"
 if os.path.exists(rr):
     suite += "; the failing package is timing-sensitive under machine load and passed when re-run alone with the patch: " + open(rr).read().strip().splitlines()[-1]
 meta["confirmed_by_me"] = {
-    "how": "tools/confirm_seed.sh: fresh worktree of /repo HEAD; demo passes on the clean tree; patch applies and the project builds; demo fails with the patch; " + (suite or "existing suite: see seeded/README.md"),
+    "how": "tools/confirm_seed2.sh (confirm_seed.sh before round 8): fresh worktree of /repo HEAD; demo passes on the clean tree; patch applies and the project builds; demo fails with the patch; " + (suite or "existing suite: see seeded/README.md"),
     "check_run": f"VERIF_REPO=<patched worktree> ./check {check} --tier quick (seed 1)",
     "detected": detected,
     "violation_key": key,
